@@ -6,6 +6,7 @@
   locality statements hold for `replace_numbers_in_text` itself, with no premise left.
 -/
 import T2N.Props.C02.Text
+import T2N.Props.C02.Canon
 
 namespace T2N.C02
 open T2N
@@ -289,5 +290,20 @@ theorem C02_empty_text (cc : CharClasses) (l : Language) (thr : Nat → Bool) :
     exact List.eq_nil_of_length_eq_zero (by simpa using this)
   rw [ha]
   rfl
+
+/-- **spans of `replace_numbers_in_text` stay inside the text**: for every language, threshold, text and char
+classes the occurrences found are ordered, disjoint spans over the tokens of the text — the annotation pass
+neither adds nor removes a token — and there are never more tokens than characters -/
+theorem C02_text_spans (cc : CharClasses) (l : Language) (thr : Nat → Bool) (s : Word) :
+    ∃ occs, findNumbers { lang := l.interp, cc := cc, sep := noSep, thrLt := thr } (l.annotate cc (tokenize cc s)) = .ok occs ∧
+      SpansOk 0 (tokenize cc s).length occs ∧ (tokenize cc s).length ≤ s.length := by
+  obtain ⟨occs, h⟩ := C06.C06_spans { lang := l.interp, cc := cc, sep := noSep, thrLt := thr }
+    (l.annotate cc (tokenize cc s))
+  refine ⟨occs, h.1, ?_, ?_⟩
+  · have := C06.C06_spansOk _ _ occs h.1
+    rwa [C02_annotate_length] at this
+  · unfold tokenize
+    rw [List.length_map]
+    exact Canon.C02_token_count cc s
 
 end T2N.C02
